@@ -1,11 +1,21 @@
 """How a sample file is handed to the library.  `infile` is documented as "str or file-like": the drivers rotate
 between the path, an open binary handle, and a file-like object that is not an io.IOBase subclass (as
 tempfile.NamedTemporaryFile objects are).  Handles stay open (the caller owns them) and are closed here, late."""
+import atexit
 import io
 import zlib
 
 _open = []
 FORMS = ('path', 'handle', 'wrapper')
+
+
+@atexit.register
+def _close_all():
+    while _open:
+        try:
+            _open.pop().close()
+        except Exception:  # noqa
+            pass
 
 
 class FileLike(object):
